@@ -1061,6 +1061,7 @@ dispatch_data_create_with_transform(dispatch_data_t data,
 	}
 
 	if (dispatch_data_get_size(data) == 0) {
+		dispatch_retain(data);
 		return data;
 	}
 
